@@ -166,6 +166,9 @@ Clauses(RF) ==
  \cup (IF C.consume /\ ~sentence /\ Linear THEN ErrClauses("glr", glr, errNode, expected, TRUE) ELSE {})
  \cup (IF C.consume /\ ~sentence /\ Linear /\ C.built /\ Exact THEN ErrClauses("lr", lr, errNode, expected, FALSE) ELSE {})
  \cup (IF C.consume /\ ~sentence /\ C.built /\ ~Exact /\ lr.kind \notin {"syntax", "disamb", "tree"} THEN {"C10:lr:other-exception"} ELSE {})
+ \* a DisambiguationError is located at the ambiguous token: a lattice node at which at least two terminals match (any input, any table)
+ \cup (IF C.built /\ lr.kind = "disamb" /\ ~(lr.exc.pos \in Nodes /\ Cardinality(MatchingAt(lr.exc.pos)) >= 2)
+       THEN {"C10:lr:disambiguation-error-not-located-at-an-ambiguous-token"} ELSE {})
  \cup (IF C.consume /\ sentence /\ glr.kind \notin {"forest"} THEN {"C01:glr-rejects-sentence"} ELSE {})
 
 Flags(RF) == [sentence |-> (Roots \cap RF.all) # {}, exact |-> C.built /\ Exact, linear |-> Linear,
